@@ -20,7 +20,9 @@
             whose incoming value satisfies Qe(parent, ·):   J (ENT + x) LEFT (state after f)  ∧  Qe x (value returned)
      leave  for ANY state with J and any enabled x whose children's values satisfy Ql:   J ENT (LEFT + x) (state after g)  ∧  Ql x (value)
   conclude, for the final state:   J Sub Sub σ  ∧  Ql r (result).
-  Qe / Ql are STATE-INDEPENDENT predicates of (node, value) — the rule implementation checks that syntactically.
+  Qe / Ql may read the client's state provided they are STABLE: once true of a node entered (left) and a value, they stay true
+  through every later callback call (premises `∀ y v, E y → Qe σ y v → Qe σ' y v`, likewise Ql); predicates that do not read
+  callback-modified state at all are the special case the rule implementation recognises syntactically.
 
   `traverse_rule_sound` is that statement.  The link between this schema and the first-order obligations the engine emits
   (init / enter-step / leave-step, conclusion assumed afterwards) is by inspection of pyvc/traverse_rule.py.
@@ -60,18 +62,18 @@ inductive Reach (s0 : St α V W S) : St α V W S → Prop
   | step {s t : St α V W S} : Reach s0 s → Step parent kids Sub r f g s t → Reach s0 t
 
 /-- the invariant carried along the run -/
-def Inv (J : (α → Prop) → (α → Prop) → S → Prop) (Qe : α → V → Prop) (Ql : α → W → Prop) (s : St α V W S) : Prop :=
+def Inv (J : (α → Prop) → (α → Prop) → S → Prop) (Qe : S → α → V → Prop) (Ql : S → α → W → Prop) (s : St α V W S) : Prop :=
   J s.ent s.left s.σ ∧
   (∀ x, s.left x → s.ent x) ∧
   (∀ x, s.ent x → Sub x) ∧
   (∀ x p, s.ent x → x ≠ r → parent x = some p → s.ent p) ∧
   (∀ x p, s.ent x → ¬ s.left x → x ≠ r → parent x = some p → ¬ s.left p) ∧
-  (∀ x, s.ent x → Qe x (s.vE x)) ∧
-  (∀ x, s.left x → Ql x (s.vL x))
+  (∀ x, s.ent x → Qe s.σ x (s.vE x)) ∧
+  (∀ x, s.left x → Ql s.σ x (s.vL x))
 
 /-- Soundness of the client rule: the three premises make `Inv` an invariant of every run the traversal contract allows. -/
 theorem inv_of_reach
-    (J : (α → Prop) → (α → Prop) → S → Prop) (Qe : α → V → Prop) (Ql : α → W → Prop)
+    (J : (α → Prop) → (α → Prop) → S → Prop) (Qe : S → α → V → Prop) (Ql : S → α → W → Prop)
     (s0 : St α V W S)
     -- structure of the tree: the children lists are consistent with the parent function inside the subtree
     (hkids : ∀ x p, Sub x → x ≠ r → parent x = some p → x ∈ kids p)
@@ -82,15 +84,17 @@ theorem inv_of_reach
     (hEnter : ∀ (E L : α → Prop) (σ : S) (x : α) (pre : Option V),
         J E L σ → (∀ c, L c → E c) → (∀ c, E c → Sub c) → (∀ c p, E c → c ≠ r → parent c = some p → E p) →
         Sub x → ¬ E x → ¬ L x →
-        ((x = r ∧ pre = none) ∨ (x ≠ r ∧ ∃ p v, parent x = some p ∧ E p ∧ ¬ L p ∧ pre = some v ∧ Qe p v)) →
-        J (fun y => y = x ∨ E y) L (f σ x pre).1 ∧ Qe x (f σ x pre).2)
+        ((x = r ∧ pre = none) ∨ (x ≠ r ∧ ∃ p v, parent x = some p ∧ E p ∧ ¬ L p ∧ pre = some v ∧ Qe σ p v)) →
+        J (fun y => y = x ∨ E y) L (f σ x pre).1 ∧ Qe (f σ x pre).1 x (f σ x pre).2 ∧
+        (∀ y v, E y → Qe σ y v → Qe (f σ x pre).1 y v) ∧ (∀ y w, L y → Ql σ y w → Ql (f σ x pre).1 y w))
     -- leave step of the rule
     (hLeave : ∀ (E L : α → Prop) (σ : S) (x : α) (wv : α → W),
         J E L σ → (∀ c, L c → E c) → (∀ c, E c → Sub c) → (∀ c p, E c → c ≠ r → parent c = some p → E p) →
         E x → ¬ L x → (∀ c, c ∈ kids x → E c ∧ L c) →
         (∀ p, x ≠ r → parent x = some p → E p ∧ ¬ L p) →
-        (∀ c, c ∈ kids x → Ql c (wv c)) →
-        J E (fun y => y = x ∨ L y) (g σ x ((kids x).map wv)).1 ∧ Ql x (g σ x ((kids x).map wv)).2)
+        (∀ c, c ∈ kids x → Ql σ c (wv c)) →
+        J E (fun y => y = x ∨ L y) (g σ x ((kids x).map wv)).1 ∧ Ql (g σ x ((kids x).map wv)).1 x (g σ x ((kids x).map wv)).2 ∧
+        (∀ y v, E y → Qe σ y v → Qe (g σ x ((kids x).map wv)).1 y v) ∧ (∀ y w, L y → Ql σ y w → Ql (g σ x ((kids x).map wv)).1 y w))
     (s : St α V W S) (hr : Reach parent kids Sub r f g s0 s) :
     Inv parent Sub r J Qe Ql s := by
   induction hr with
@@ -107,7 +111,7 @@ theorem inv_of_reach
     cases hstep with
     | enter x pre hsub hnot hpre =>
       have hnl : ¬ s.left x := fun h => hnot (hLE x h)
-      have hpre' : (x = r ∧ pre = none) ∨ (x ≠ r ∧ ∃ p v, parent x = some p ∧ s.ent p ∧ ¬ s.left p ∧ pre = some v ∧ Qe p v) := by
+      have hpre' : (x = r ∧ pre = none) ∨ (x ≠ r ∧ ∃ p v, parent x = some p ∧ s.ent p ∧ ¬ s.left p ∧ pre = some v ∧ Qe s.σ p v) := by
         cases hpre with
         | inl h => exact Or.inl h
         | inr h =>
@@ -145,19 +149,19 @@ theorem inv_of_reach
             exact hql
         | inr h => exact hNL y p h hnly hne hp
       · intro y hy
-        show Qe y (if y = x then (f s.σ x pre).2 else s.vE y)
+        show Qe (f s.σ x pre).1 y (if y = x then (f s.σ x pre).2 else s.vE y)
         by_cases hyx : y = x
-        · rw [if_pos hyx, hyx]; exact hstepJ.2
+        · rw [if_pos hyx, hyx]; exact hstepJ.2.1
         · rw [if_neg hyx]
           cases hy with
           | inl h => exact absurd h hyx
-          | inr h => exact hQe y h
-      · intro y hy; exact hQl y hy
+          | inr h => exact hstepJ.2.2.1 y (s.vE y) h (hQe y h)
+      · intro y hy; exact hstepJ.2.2.2 y (s.vL y) hy (hQl y hy)
     | leave x hent hnl hk =>
       have hkids' : ∀ c, c ∈ kids x → s.ent c ∧ s.left c := fun c hc => ⟨hLE c (hk c hc), hk c hc⟩
       have hpar : ∀ p, x ≠ r → parent x = some p → s.ent p ∧ ¬ s.left p :=
         fun p hne hp => ⟨hEP x p hent hne hp, hNL x p hent hnl hne hp⟩
-      have hvals : ∀ c, c ∈ kids x → Ql c (s.vL c) := fun c hc => hQl c (hk c hc)
+      have hvals : ∀ c, c ∈ kids x → Ql s.σ c (s.vL c) := fun c hc => hQl c (hk c hc)
       have hstepJ := hLeave s.ent s.left s.σ x s.vL hJ hLE hES hEP hent hnl hkids' hpar hvals
       refine ⟨hstepJ.1, ?_, ?_, ?_, ?_, ?_, ?_⟩
       · intro y hy
@@ -175,20 +179,20 @@ theorem inv_of_reach
           have : y ∈ kids p := hkids y p (hES y hy) hne hp
           exact hnly' (hk y this)
         | inr h => exact hNL y p hy hnly' hne hp h
-      · exact hQe
+      · intro y hy; exact hstepJ.2.2.1 y (s.vE y) hy (hQe y hy)
       · intro y hy
-        show Ql y (if y = x then (g s.σ x ((kids x).map s.vL)).2 else s.vL y)
+        show Ql (g s.σ x ((kids x).map s.vL)).1 y (if y = x then (g s.σ x ((kids x).map s.vL)).2 else s.vL y)
         by_cases hyx : y = x
-        · rw [if_pos hyx, hyx]; exact hstepJ.2
+        · rw [if_pos hyx, hyx]; exact hstepJ.2.1
         · rw [if_neg hyx]
           cases hy with
           | inl h => exact absurd h hyx
-          | inr h => exact hQl y h
+          | inr h => exact hstepJ.2.2.2 y (s.vL y) h (hQl y h)
 
 /-- The conclusion the rule assumes after the call: when the run ends with every subtree node entered and left,
     `J Sub Sub σ` holds and the value of the start node's leave call satisfies `Ql`. -/
 theorem traverse_rule_sound
-    (J : (α → Prop) → (α → Prop) → S → Prop) (Qe : α → V → Prop) (Ql : α → W → Prop)
+    (J : (α → Prop) → (α → Prop) → S → Prop) (Qe : S → α → V → Prop) (Ql : S → α → W → Prop)
     (s0 : St α V W S)
     (hkids : ∀ x p, Sub x → x ≠ r → parent x = some p → x ∈ kids p)
     (h0e : ∀ x, ¬ s0.ent x) (h0l : ∀ x, ¬ s0.left x)
@@ -196,17 +200,19 @@ theorem traverse_rule_sound
     (hEnter : ∀ (E L : α → Prop) (σ : S) (x : α) (pre : Option V),
         J E L σ → (∀ c, L c → E c) → (∀ c, E c → Sub c) → (∀ c p, E c → c ≠ r → parent c = some p → E p) →
         Sub x → ¬ E x → ¬ L x →
-        ((x = r ∧ pre = none) ∨ (x ≠ r ∧ ∃ p v, parent x = some p ∧ E p ∧ ¬ L p ∧ pre = some v ∧ Qe p v)) →
-        J (fun y => y = x ∨ E y) L (f σ x pre).1 ∧ Qe x (f σ x pre).2)
+        ((x = r ∧ pre = none) ∨ (x ≠ r ∧ ∃ p v, parent x = some p ∧ E p ∧ ¬ L p ∧ pre = some v ∧ Qe σ p v)) →
+        J (fun y => y = x ∨ E y) L (f σ x pre).1 ∧ Qe (f σ x pre).1 x (f σ x pre).2 ∧
+        (∀ y v, E y → Qe σ y v → Qe (f σ x pre).1 y v) ∧ (∀ y w, L y → Ql σ y w → Ql (f σ x pre).1 y w))
     (hLeave : ∀ (E L : α → Prop) (σ : S) (x : α) (wv : α → W),
         J E L σ → (∀ c, L c → E c) → (∀ c, E c → Sub c) → (∀ c p, E c → c ≠ r → parent c = some p → E p) →
         E x → ¬ L x → (∀ c, c ∈ kids x → E c ∧ L c) →
         (∀ p, x ≠ r → parent x = some p → E p ∧ ¬ L p) →
-        (∀ c, c ∈ kids x → Ql c (wv c)) →
-        J E (fun y => y = x ∨ L y) (g σ x ((kids x).map wv)).1 ∧ Ql x (g σ x ((kids x).map wv)).2)
+        (∀ c, c ∈ kids x → Ql σ c (wv c)) →
+        J E (fun y => y = x ∨ L y) (g σ x ((kids x).map wv)).1 ∧ Ql (g σ x ((kids x).map wv)).1 x (g σ x ((kids x).map wv)).2 ∧
+        (∀ y v, E y → Qe σ y v → Qe (g σ x ((kids x).map wv)).1 y v) ∧ (∀ y w, L y → Ql σ y w → Ql (g σ x ((kids x).map wv)).1 y w))
     (s : St α V W S) (hr : Reach parent kids Sub r f g s0 s)
     (hallE : ∀ x, s.ent x ↔ Sub x) (hallL : ∀ x, s.left x ↔ Sub x) (hroot : Sub r) :
-    J Sub Sub s.σ ∧ Ql r (s.vL r) := by
+    J Sub Sub s.σ ∧ Ql s.σ r (s.vL r) := by
   have hinv := inv_of_reach parent kids Sub r f g J Qe Ql s0 hkids h0e h0l hInit hEnter hLeave s hr
   obtain ⟨hJ, _, _, _, _, _, hQl⟩ := hinv
   have e1 : s.ent = Sub := funext (fun x => propext (hallE x))
